@@ -80,8 +80,11 @@ func (e *Engine) ConcurrentWrites(n, m int) {
 		}
 	}
 	stop := make(chan struct{})
+	sdone := make(chan struct{})
 	var sampleBad atomic.Value
-	go func() { // concurrent sampler
+	var nsamples int64
+	go func() { // concurrent sampler (touches nothing but its own counters: the monitor must not become the race)
+		defer close(sdone)
 		for {
 			select {
 			case <-stop:
@@ -94,7 +97,7 @@ func (e *Engine) ConcurrentWrites(n, m int) {
 			if v < before+c || v > before+i {
 				sampleBad.Store(fmt.Sprintf("sample %d outside [%d,%d]", v, before+c, before+i))
 			}
-			e.Res.Count("concurrent_samples", 1)
+			atomic.AddInt64(&nsamples, 1)
 		}
 	}()
 	for g := 0; g < n; g++ {
@@ -114,6 +117,8 @@ func (e *Engine) ConcurrentWrites(n, m int) {
 	}
 	wg.Wait()
 	close(stop)
+	<-sdone
+	e.Res.Count("concurrent_samples", atomic.LoadInt64(&nsamples))
 	for g := 0; g < n; g++ {
 		for _, w := range plan[g] {
 			e.M.Write(w.off, Block, w.wid)
